@@ -72,17 +72,24 @@ def real_run(vec, consumer):
     import os
     import subprocess
     import sys
-    out = subprocess.run([sys.executable, '-c', 'from mc.checks import c13; c13.real_child()', json.dumps(list(vec)), json.dumps(consumer)],
-                         capture_output=True, text=True, timeout=180, cwd=os.path.dirname(os.path.dirname(os.path.dirname(os.path.abspath(__file__)))))
-    if out.returncode != 0:
-        return dict(viol=[viol('conformance:real-run-failed', 'real multiprocessing run failed', 'ok', out.stderr[-500:])], obs='failed')
-    r = json.loads(out.stdout.strip().splitlines()[-1])
     viols = []
-    if r['children_left']:
-        viols.append(viol('conformance:real-worker-left-behind', 'real worker processes alive 1 s after the run (vector %s, consumer %s)' % (list(vec), consumer), [], r['children_left']))
-    slow = [(b, d) for b, d in zip(vec, r['durations']) if d > (1 + 2.5 if b != 'exit' else 2.0)]
-    if slow:
-        viols.append(viol('conformance:real-comparison-too-slow', 'wall time of a faulty comparison exceeds timeout + slack', '<= timeout + 2.5 s', slow))
+    r = None
+    for attempt in range(3):   # real time is not owned: a problem must persist over three runs before it is reported
+        out = subprocess.run([sys.executable, '-c', 'from mc.checks import c13; c13.real_child()', json.dumps(list(vec)), json.dumps(consumer)],
+                             capture_output=True, text=True, timeout=180, cwd=os.path.dirname(os.path.dirname(os.path.dirname(os.path.abspath(__file__)))))
+        if out.returncode != 0:
+            continue
+        r = json.loads(out.stdout.strip().splitlines()[-1])
+        viols = []
+        if r['children_left']:
+            viols.append(viol('conformance:real-worker-left-behind', 'real worker processes alive 1 s after the run (vector %s, consumer %s)' % (list(vec), consumer), [], r['children_left']))
+        slow = [(b, d) for b, d in zip(vec, r['durations']) if d > (1 + 2.5 if b != 'exit' else 2.0)]
+        if slow:
+            viols.append(viol('conformance:real-comparison-too-slow', 'wall time of a faulty comparison exceeds timeout + slack', '<= timeout + 2.5 s', slow))
+        if not viols:
+            break
+    if r is None:
+        return dict(viol=[viol('conformance:real-run-failed', 'real multiprocessing run failed', 'ok', out.stderr[-500:])], obs='failed')
     return dict(viol=viols, obs=repr((r['n'], r['children_left'])), nontrivial=True, evals=1)
 
 
